@@ -118,10 +118,10 @@ type Stats struct{ TxN int }
 
 func NewDB() *DB { return &DB{root: &node{}, path: "/mbolt/db"} }
 
-func (db *DB) Path() string    { return db.path }
-func (db *DB) Close() error    { db.closed = true; return nil }
-func (db *DB) Stats() Stats    { return Stats{} }
-func (db *DB) String() string  { return "mbolt.DB" }
+func (db *DB) Path() string     { return db.path }
+func (db *DB) Close() error     { db.closed = true; return nil }
+func (db *DB) Stats() Stats     { return Stats{} }
+func (db *DB) String() string   { return "mbolt.DB" }
 func (db *DB) IsReadOnly() bool { return false }
 
 type Tx struct {
@@ -148,10 +148,10 @@ func (db *DB) Begin(writable bool) (*Tx, error) {
 	return tx, nil
 }
 
-func (tx *Tx) DB() *DB          { return tx.db }
-func (tx *Tx) Writable() bool   { return tx.writable }
-func (tx *Tx) ID() int          { return 1 }
-func (tx *Tx) Size() int64      { return 0 }
+func (tx *Tx) DB() *DB              { return tx.db }
+func (tx *Tx) Writable() bool       { return tx.writable }
+func (tx *Tx) ID() int              { return 1 }
+func (tx *Tx) Size() int64          { return 0 }
 func (tx *Tx) OnCommit(fn func())   { tx.commitH = append(tx.commitH, fn) }
 func (tx *Tx) OnRollback(fn func()) { tx.rollH = append(tx.rollH, fn) }
 
